@@ -530,6 +530,11 @@ func runScenario(t *testing.T, sc scenario) (obs observed, fails []failure) {
 		cmu.Unlock()
 		ag.Stop()
 		cmu.Lock()
+		for _, pc := range pconn {
+			if pc != nil {
+				pc.Close() // also ends the frame-dispatch goroutines of connections the manager never owned
+			}
+		}
 		for _, c := range conns {
 			c.Close()
 		}
